@@ -22,7 +22,7 @@ worktree; I confirmed for each that the patch applies, that its demonstration fa
 without it, and then ran the property's quick check with the patch applied to /repo (and reverted it).  Details,
 including what each seed needs in order to manifest and what was changed in a check that missed it, are in
 seeded/<id>/meta.json.  %d seeds so far: %d caught by the check as it was committed at the time, %d missed at first;
-every miss but the last one (C20-4, open: see 9.7a batch 9) led to a strengthening of the check (more of the behaviour behind the property), after which the seed
+every miss led to a strengthening of the check (more of the behaviour behind the property), after which the seed
 is caught and the unchanged tree still passes.
 
 %s
